@@ -30,7 +30,7 @@ Deliverables, all in /tmp/seed-out/{id}/ :
   1. patch.diff   - `git diff` of your change (relative to the worktree HEAD), applying cleanly with `git apply`.
   2. demo_test.go - a Go test file (package = the package of a directory you name in meta.json as "demo_dir", test function name starting with TestSeedDemo) that FAILS with the change and PASSES without it, when copied into that directory and run with go test -vet=off -count=1 -run TestSeedDemo ./<demo_dir>/ . It must be self-contained (build its inputs in the test; use t.TempDir()).
   3. meta.json    - {{"property": "{id}", "summary": what the change does, "needs": what specific circumstance it needs to manifest, "demo_dir": relative dir, "tests_run": which test commands you ran with the change and their outcome}}.
-Verify yourself: demo fails with the change, passes without (git stash or git apply -R), then leave the worktree with the change REVERTED (clean `git status`) and no extra files in it. Report briefly what you did."""
+Verify yourself: demo fails with the change, passes without (use git apply -R; do NOT use git stash: the stash stack is shared between worktrees), then leave the worktree with the change REVERTED (clean `git status`) and no extra files in it. Report briefly what you did."""
 open(f'/tmp/seed-out/prompt-{id}.txt','w').write(txt)
 PY
 echo "$wt ready; prompt /tmp/seed-out/prompt-$id.txt"
